@@ -10,6 +10,7 @@ mod methods;
 mod names;
 mod replicas;
 mod surface;
+mod table;
 mod player;
 mod vk;
 
@@ -118,6 +119,7 @@ fn main() {
         "smoke" => smoke(),
         "play" => play(&args[2..]),
         "crash" => crash::run(&args[2], &args[3], args.get(4).and_then(|x| x.parse().ok()).unwrap_or(400), false),
+        "table" => table::run(&args[2], &args[3]),
         "schema" => surface::print_schema(),
         "surface" => surface::run(&args[2], &args[3], args[4].parse().unwrap_or(1), args[5].parse().unwrap_or(100), args.get(6).and_then(|x| x.parse().ok()).unwrap_or(0)),
         "replicas" => replicas::run(&args[2], &args[3]),
